@@ -35,6 +35,10 @@ def run(chk, repo: Repo):
     chk.rule("C18-R3", "restriction only when grids/times coincide, else interpolation; observation map applied afterwards; setters recompute the flag", floor=5)
     chk.rule("C18-R4", "linear solver wrapper unpacks tuple results as (solution, info)", floor=1)
     chk.rule("C18-R5", "PDE gradient dispatch", floor=1)
+    chk.rule("C18-R6", "assembling, solving and observing are functions of the current parameter: no computation path of the PDE layer is selected by a "
+                       "tolerance comparator (re-use of the previous assembly / solution for a `nearly equal` parameter)", floor=1)
+    from ..tolerant import tolerant_shortcut_rule
+    tolerant_shortcut_rule(chk, repo, "C18-R6", ("cuqi/pde/",))
     _r1(chk, repo)
     _r2(chk, repo)
     _r3(chk, repo)
